@@ -916,10 +916,22 @@ TABLE["numpy.abs"] = _unary(_abs)
 TABLE["D.ar_numpy.sign"] = _unary(_sign)
 
 
-@reg("D.ar_numpy.asarray", "D.ar_numpy.copy", "D.ar_numpy.clone", "D.ar_numpy.to_numpy", "D.ar_numpy.atleast_1d",
+@reg("D.ar_numpy.asarray", "D.ar_numpy.to_numpy", "D.ar_numpy.atleast_1d",
      "D.astype", "numpy.asarray", "float", "D.ar_numpy.array", "D.ar_numpy.squeeze")
 def _identity(ex, st, ctx, args, kwargs):
     return args[0]
+
+
+@reg("D.ar_numpy.copy", "D.ar_numpy.clone")
+def _copy(ex, st, ctx, args, kwargs):
+    """copy / clone: the same value in a *new* array object (identity matters for the ownership clause "no in-place update of a
+    caller-owned array": a copy may be updated in place, the caller's array may not)."""
+    v = args[0]
+    if is_z3(v):
+        return type(v)(v.as_ast(), v.ctx)
+    if isinstance(v, Poly):
+        return Poly(dict(v.terms))
+    return v
 
 
 @reg("D.ar_numpy.astype")
